@@ -433,6 +433,18 @@ def gen_specs(ctx: Ctx) -> list[dict]:
             s["raw_nonascii"] = False
             s["small"] = True
             specs.append(s)
+    # witnesses of the recorded findings (raw child reads), present in both tiers
+    for model, res, pred in ((SMALL[0][0], SMALL[0][1], lambda e: (e.get(XSI_T) or "").endswith("Realization") and len(e) == 0),
+                             (LARGE[0][0], LARGE[0][1], lambda e: e.tag == "ownedSpecification")):
+        src = links.data_dir() / model
+        main, _ = fragmenter.find_main(src)
+        from lxml import etree
+
+        root = etree.parse(str(src.parent / main)).getroot()
+        hit = next((e for e in root.iter() if isinstance(e.tag, str) and e.get("id") and e.get(XSI_T) and e is not root and pred(e)), None)
+        if hit is not None:
+            specs.append({"model": model, "resources": res, "cuts": [[hit.get("id"), "fragments/witness.capellafragment"]],
+                          "main_rel": None, "airdfragments": False, "raw_nonascii": False, "small": model == SMALL[0][0], "witness": True})
     large = LARGE[: ctx.pick(1, 5)]
     for model, res in large:
         for _ in range(ctx.pick(2, 5)):
